@@ -333,6 +333,21 @@ def binclude_big_cases():
             yield c
 
 
+def binclude_word_cases():
+    """BINCLUDE on targets whose address unit holds two or four bytes: the file's bytes fill units (the last one padded with
+    zeros), what follows continues at the next unit"""
+    for cpu, unit, stmt in (('320c25', 2, 'word'), ('320c30', 4, 'word'), ('atmega8', 2, 'data'), ('16c84', 2, 'data')):
+        for flen in (1, 2, 3, 4, 7, 8, 9, 256, 258, 515):
+            data = bytes((i * 5 + 1) & (0x3f if cpu == '16c84' and i % 2 else 0xff) for i in range(flen))
+            padded = data + b'\0' * (-flen % unit)
+            words = [int.from_bytes(padded[i:i + unit], 'little') for i in range(0, len(padded), unit)]
+            hand = ['\t%s %s' % (stmt, ','.join(str(w) for w in words[i:i + 16])) for i in range(0, len(words), 16)]
+            c = {'prog': ['\tcpu ' + cpu, '\torg 16', '\t%s 21' % stmt, '\tbinclude "w.dat"', '\t%s 22' % stmt],
+                 'hand': ['\tcpu ' + cpu, '\torg 16', '\t%s 21' % stmt] + hand + ['\t%s 22' % stmt], 'tag': 'binclude/word-addressed-target'}
+            c['files'] = {'w.dat': data.decode('latin-1')}
+            yield c
+
+
 def sideeffect_cases():
     S = [
         # predefined symbols changed in a body are read after it
@@ -364,7 +379,7 @@ def subspaces(tier):
             ('d:nesting-pairs', nesting_cases(2))]
     if not q:
         subs.append(('d:nesting-triples', nesting_cases(3)))
-    subs += [('e:binclude', list(binclude_cases()) + list(binclude_big_cases())), ('f:side-effects-in-bodies', list(sideeffect_cases()))]
+    subs += [('e:binclude', list(binclude_cases()) + list(binclude_big_cases()) + list(binclude_word_cases())), ('f:side-effects-in-bodies', list(sideeffect_cases()))]
     return subs
 
 
@@ -385,7 +400,7 @@ def image(p):
     m = {}
     for r in pfile.data_records(pfile.read(p)):
         for i, b in enumerate(r.data):
-            m[(r.seg, r.start + i)] = b
+            m[(r.seg, r.start * r.gran + i)] = b        # (byte address: start is counted in address units)
     return m
 
 
